@@ -127,19 +127,24 @@ Decodable == r.ctype = "NORMAL" /\ arc[r.cur].kind = "file" /\ arc[r.cur].sup
 \* compressed bytes consumed by the decoder so far are not observable at this interface: the
 \* basic reader's `rem` may drop by any amount up to what is present
 Consume(c) == [b EXCEPT !.rem = @ - c, !.pos = @ + c]
+\* a member whose data is not all there: reading its compressed data can hit the end of the
+\* input, which latches the basic reader's eof flag (lha_basic_reader_read_compressed)
+Truncated(i) == arc[i].avail < arc[i].packed \/ ("trunc" \in DOMAIN arc[i] /\ arc[i].trunc)
+ConsumeE(c, eofNow) == [b EXCEPT !.rem = @ - c, !.pos = @ + c, !.eof = @ \/ eofNow]
+EofAllowed(eofNow) == eofNow => (b.idx # 0 /\ Truncated(b.idx))
 CanConsume(c) == b.idx # 0 /\ c <= b.rem /\ (b.pos - HdrOff(b.idx) - 1) + c <= arc[b.idx].avail
 
 (* lha_reader_read(k): opens the decoder on first use (allocOk = FALSE: that allocation fails) *)
-ReadWith(k, c, allocOk) ==
+ReadWith(k, c, allocOk, eofNow) ==
   /\ "reader" \in live
   /\ IF r.dec \/ (Decodable /\ allocOk)
      THEN LET m == arc[r.cur]
               n == IF k < Len(m.data) - r.dpos THEN k ELSE Len(m.data) - r.dpos
           IN /\ r' = [r EXCEPT !.dec = TRUE, !.dpos = @ + n]
              /\ live' = live \cup {"decoder"}
-             /\ CanConsume(c) /\ b' = Consume(c)
+             /\ CanConsume(c) /\ EofAllowed(eofNow) /\ b' = ConsumeE(c, eofNow)
              /\ done' = [done EXCEPT ![r.cur] = "read"]
-     ELSE /\ c = 0 /\ UNCHANGED <<r, live, b, done>>
+     ELSE /\ c = 0 /\ ~eofNow /\ UNCHANGED <<r, live, b, done>>
   /\ UNCHANGED <<arc, policy, dirStack, deferred, refs, mis>>
 ReadResult(k, allocOk) ==     \* bytes returned by the call (evaluated in the pre-state)
   IF r.dec \/ (Decodable /\ allocOk)
@@ -153,13 +158,13 @@ CheckResult(allocOk) ==
   IF r.ctype # "NORMAL" THEN FALSE
   ELSE IF arc[r.cur].kind # "file" THEN TRUE
   ELSE allocOk /\ arc[r.cur].sup /\ arc[r.cur].good
-CheckWith(c, allocOk) ==
+CheckWith(c, allocOk, eofNow) ==
   /\ "reader" \in live
   /\ IF Decodable /\ allocOk
      THEN /\ r' = [r EXCEPT !.dec = TRUE, !.dpos = Len(arc[r.cur].data)]
           /\ live' = live \cup {"decoder"}
-          /\ CanConsume(c) /\ b' = Consume(c)
-     ELSE /\ c = 0 /\ UNCHANGED <<r, live, b>>
+          /\ CanConsume(c) /\ EofAllowed(eofNow) /\ b' = ConsumeE(c, eofNow)
+     ELSE /\ c = 0 /\ ~eofNow /\ UNCHANGED <<r, live, b>>
   /\ done' = IF r.ctype = "NORMAL" THEN [done EXCEPT ![r.cur] = "checked"] ELSE done
   /\ UNCHANGED <<arc, policy, dirStack, deferred, refs, mis>>
 
@@ -182,7 +187,7 @@ ExtractResult(fs, allocOk) ==
     [] r.ctype = "DEFER" -> allocOk /\ fs = "ok"
     [] OTHER -> FALSE
 
-ExtractWith(fs, c, allocOk) ==
+ExtractWith(fs, c, allocOk, eofNow) ==
   /\ "reader" \in live
   /\ IF r.ctype = "NORMAL"
      THEN LET m == arc[r.cur] IN
@@ -192,24 +197,24 @@ ExtractWith(fs, c, allocOk) ==
                        THEN /\ live' = live \cup {"decoder"}
                             /\ IF fs = "ok"
                                THEN /\ r' = [r EXCEPT !.dec = TRUE, !.dpos = Len(m.data)]
-                                    /\ CanConsume(c) /\ b' = Consume(c)
-                               ELSE /\ r' = [r EXCEPT !.dec = TRUE] /\ c = 0 /\ UNCHANGED b
-                       ELSE c = 0 /\ UNCHANGED <<live, r, b>>
+                                    /\ CanConsume(c) /\ EofAllowed(eofNow) /\ b' = ConsumeE(c, eofNow)
+                               ELSE /\ r' = [r EXCEPT !.dec = TRUE] /\ c = 0 /\ ~eofNow /\ UNCHANGED b
+                       ELSE c = 0 /\ ~eofNow /\ UNCHANGED <<live, r, b>>
                     /\ UNCHANGED <<dirStack, deferred, refs>>
                [] m.kind = "dir" ->
-                    /\ c = 0
+                    /\ c = 0 /\ ~eofNow
                     /\ IF fs = "made" /\ policy # "PLAIN"
                        THEN dirStack' = <<r.cur>> \o dirStack /\ refs' = Inc(refs, r.cur)
                        ELSE UNCHANGED <<dirStack, refs>>
                     /\ UNCHANGED <<deferred, live, r, b>>
                [] m.kind = "dlink" ->
-                    /\ c = 0
+                    /\ c = 0 /\ ~eofNow
                     /\ IF allocOk /\ fs = "ok"
                        THEN deferred' = InsertDeferred(deferred, r.cur) /\ refs' = Inc(refs, r.cur)
                        ELSE UNCHANGED <<deferred, refs>>
                     /\ UNCHANGED <<dirStack, live, r, b>>
-               [] OTHER -> c = 0 /\ UNCHANGED <<dirStack, deferred, refs, live, r, b>>
-     ELSE /\ c = 0
+               [] OTHER -> c = 0 /\ ~eofNow /\ UNCHANGED <<dirStack, deferred, refs, live, r, b>>
+     ELSE /\ c = 0 /\ ~eofNow
           /\ done' = IF r.ctype \in {"FAKE", "DEFER"} THEN [done EXCEPT ![r.cur] = "re-extracted"] ELSE done
           /\ UNCHANGED <<dirStack, deferred, refs, live, r, b>>
   /\ UNCHANGED <<arc, policy, mis>>
